@@ -381,3 +381,8 @@ func TestRandomTrees(t *testing.T) {
 		Rule:    "0..300 leaves (and 2^k+-2) with random contents 0..40 bytes incl. empty, equal and node-shaped leaves, 4 hash functions, optional failing leaves (first error by index must be returned), second leaf type with equal marshalled content, inputs unmodified, inclusion proofs; non-trivial = n >= 3 not a power of two, or failing leaves; distinct by case",
 	})
 }
+
+// FuzzGenTrees: the structured generator driven by Go's coverage-guided fuzzer (thorough tier).
+func FuzzGenTrees(f *testing.F) {
+	h.FuzzSub(f, h.Sub[treeCase]{Prop: "C15", Name: "random-trees", Gen: genTree, Check: checkTree})
+}
